@@ -11,6 +11,25 @@ BUILTINS = ["int", "str", "list", "dict", "ValueError", "object"]
 # how a class name can be mentioned
 MENTION_FORMS = ["base", "attr_hint", "attr_hint_generic", "attr_hint_optional", "attr_hint_union", "param_hint", "param_hint_generic", "return_hint", "instantiate"]
 IMPORT_FORMS = ["local", "from_plain", "from_alias"]
+# further ways a class can come into the file's namespace ("however the class was imported", "same-file classes wherever the call is written"): a same-file class
+# defined BELOW the class that uses it (calls in method bodies are resolved when the method runs: an ordinary forward reference), and relative from-imports with a
+# dots-only module part (`from . import X`, `from .. import X`), with a dotted module part (`from .lib0 import X`, `from ..pkg.lib0 import X`), each with / without alias.
+# They form a SEPARATE dimension (own matrix over the positions that are not lost for every form already, own random batch) so that no known cell is multiplied.
+X_IMPORT_FORMS = ["local_below", "rel_dots", "rel_dots_alias", "rel_up", "rel_up_alias", "rel_mod", "rel_mod_alias", "rel_up_mod", "rel_up_mod_alias"]
+X_RANDOM_FORMS = IMPORT_FORMS + X_IMPORT_FORMS
+IMPORT_TEMPLATES = {"from_plain": "from lib%(k)d import %(real)s", "from_alias": "from lib%(k)d import %(real)s as %(bound)s",
+                    "rel_dots": "from . import %(real)s", "rel_dots_alias": "from . import %(real)s as %(bound)s",
+                    "rel_up": "from .. import %(real)s", "rel_up_alias": "from .. import %(real)s as %(bound)s",
+                    "rel_mod": "from .lib%(k)d import %(real)s", "rel_mod_alias": "from .lib%(k)d import %(real)s as %(bound)s",
+                    "rel_up_mod": "from ..pkg.lib%(k)d import %(real)s", "rel_up_mod_alias": "from ...pkg.lib%(k)d import %(real)s as %(bound)s"}
+
+
+def is_alias_form(form):
+    return form.endswith("_alias")
+
+
+def is_local_form(form):
+    return form in ("local", "local_below")
 # positions of an instantiation `{E}` inside a method body (statement templates shared with C14; target positions make no sense for a call)
 INST_POSITIONS = [p for p in STMT_POSITIONS if p not in TARGET_POSITIONS + ("await", "yield", "with_item", "with_item_as")] + ["with_item", "with_item_as"]
 
@@ -140,14 +159,14 @@ class ClassSpec:
 
 def render(spec, member_order=None, extra_unrelated=0, self_name=None):
     name = self_name or spec.name
-    imports, locals_ = [], []
+    imports, locals_, below = [], [], []
     for cid, (form, real, bound) in sorted(spec.others.items()):
         if form == "local":
             locals_.append("class %s:\n    pass\n" % real)
-        elif form == "from_plain":
-            imports.append("from lib%d import %s" % (cid % 3, real))
-        elif form == "from_alias":
-            imports.append("from lib%d import %s as %s" % (cid % 3, real, bound))
+        elif form == "local_below":
+            below.append("class %s:\n    pass\n" % real)
+        elif form in IMPORT_TEMPLATES:
+            imports.append(IMPORT_TEMPLATES[form] % {"k": cid % 3, "real": real, "bound": bound})
         elif form in ("builtin", "self"):
             pass
     for k in range(extra_unrelated):
@@ -188,20 +207,23 @@ def render(spec, member_order=None, extra_unrelated=0, self_name=None):
         members = [members[i] for i in member_order]
     body = "\n\n".join(members) if members else "    pass"
     head = "class %s(%s):" % (name, ", ".join(bases)) if bases else "class %s:" % name
-    return "from typing import List, Optional, Dict\n" + "\n".join(imports) + "\n\n" + "\n".join(locals_) + "\n" + head + "\n" + body + "\n"
+    tail = ("\n\n" + "\n".join(below)) if below else ""
+    return "from typing import List, Optional, Dict\n" + "\n".join(imports) + "\n\n" + "\n".join(locals_) + "\n" + head + "\n" + body + "\n" + tail
 
 
-def gen_spec(rng, idx):
-    s = ClassSpec("Subject%d" % idx)
+def gen_spec(rng, idx, forms=IMPORT_FORMS, positions=None, prefix="Subject"):
+    """`forms` / `positions`: the import forms and instantiation positions to draw from (defaults: the three basic forms, every position)"""
+    positions = positions or INST_POSITIONS
+    s = ClassSpec("%s%d" % (prefix, idx))
     n_other = rng.randint(0, 9)
     for cid in range(1, n_other + 1):
-        form = rng.choice(IMPORT_FORMS)
+        form = rng.choice(forms)
         real = "Dep%d_%d" % (idx, cid)
         if rng.random() < 0.25:
             real = rng.choice(TRICKY_NAMES) + ("" if rng.random() < 0.5 else str(cid))
             if any(real == o[1] for o in s.others.values()):
                 real = "Dep%d_%d" % (idx, cid)
-        s.others[cid] = (form, real, ("Al%d_%d" % (idx, cid)) if form == "from_alias" else real)
+        s.others[cid] = (form, real, ("Al%d_%d" % (idx, cid)) if is_alias_form(form) else real)
     for b in range(rng.randint(0, 2)):
         cid = 100 + b
         bn = rng.choice(BUILTINS)
@@ -212,7 +234,10 @@ def gen_spec(rng, idx):
         form = rng.choice(MENTION_FORMS)
         if form == "base" and s.others[cid][0] == "builtin" and s.others[cid][1] in ("int", "str", "list", "dict"):
             form = "attr_hint"
-        pos = rng.choice(INST_POSITIONS) if form == "instantiate" else None
+        if s.others[cid][0] == "local_below":
+            # a class defined below its user can only be named where the name is looked up at CALL time (a base class or an annotation would be a NameError)
+            form = "instantiate"
+        pos = rng.choice(positions) if form == "instantiate" else None
         real_ids = [i for i in ids if s.others[i][0] != "builtin"]
         if form == "instantiate" and real_ids and rng.random() < 0.3:
             form = "instantiate_nested"
@@ -298,6 +323,46 @@ def run(tier, seed, replay=None):
     for i in range(nrand):
         s = gen_spec(rng, i)
         cases.append((("random", "", ""), s, render(s), expected(s)))
+    # ---- further import forms / same-file layouts (a separate dimension: the positions already lost for EVERY basic form are left out, so no known cell is multiplied) ----
+    lost_everywhere = set(f["signature"].get("position") for f in C.known_findings()
+                          if f.get("property") == PID and f.get("status") == "known" and (f.get("signature") or {}).get("kind") == "position")
+    x_positions = [p for p in INST_POSITIONS if p not in lost_everywhere]
+    xrng = random.Random(seed * 7368787 + 1313)
+    for pos in x_positions:
+        for form in X_IMPORT_FORMS:
+            s = ClassSpec("Subject")
+            s.others[1] = (form, "Target", "Tg" if is_alias_form(form) else "Target")
+            s.mentions.append((1, "instantiate", pos))
+            cases.append((("matrixx", pos, form), s, render(s), [1]))
+        # helpers split around the class that uses them: one defined above, one below, one imported by a dots-only relative import
+        s = ClassSpec("Subject")
+        s.others[1] = ("local", "Above", "Above")
+        s.others[2] = ("local_below", "Below", "Below")
+        s.others[3] = ("rel_dots", "Sibling", "Sibling")
+        s.mentions += [(2, "instantiate", pos), (1, "instantiate", pos), (3, "instantiate", pos)]
+        cases.append((("split", pos, "above+below+rel_dots"), s, render(s), [2, 1, 3]))
+    for mform in MENTION_FORMS:
+        if mform == "instantiate":
+            continue
+        for form in X_IMPORT_FORMS:
+            if form == "local_below":
+                continue    # a base class / annotation naming a class defined further down is a NameError, not a coupling form
+            s = ClassSpec("Subject")
+            s.others[1] = (form, "Target", "Tg" if is_alias_form(form) else "Target")
+            s.mentions.append((1, mform, None))
+            cases.append((("formx", mform, form), s, render(s), [1]))
+    for style in NEST_STYLES:
+        for stmt_pos in ("assign_value", "else_body", "with_item"):
+            for form, oform in (("local_below", "local"), ("local", "local_below"), ("local_below", "local_below"), ("rel_dots", "local_below"), ("rel_up_alias", "rel_dots")):
+                s = ClassSpec("Subject")
+                s.others[1] = (form, "Inner", "In" if is_alias_form(form) else "Inner")
+                s.others[2] = (oform, "Outer", "Outer")
+                s.mentions.append((1, "instantiate_nested", (stmt_pos, style, 2)))
+                cases.append((("nestx", style, stmt_pos + "/" + form + "/" + oform), s, render(s), [1, 2]))
+    nrandx = (200 if tier == "quick" else 2000) * (1 if ps.ok else 6)
+    for i in range(nrandx):
+        s = gen_spec(xrng, i, forms=X_RANDOM_FORMS, positions=x_positions, prefix="SubjectX")
+        cases.append((("randomx", "", ""), s, render(s), expected(s)))
     go = C.harness_batch("cbo", [{"Src": src} for _, _, src, _ in cases])
     lines = []
     for tag, s, src, exp in cases:
@@ -308,7 +373,9 @@ def run(tier, seed, replay=None):
     if model is None:
         ps.ok = False
         ps.broken.append("driver missing")
-    hist = {"classes": 0, "by_cbo": {}, "matrix_cells": 0, "metamorphic_pairs": 0}
+    hist = {"classes": 0, "by_cbo": {}, "matrix_cells": 0, "metamorphic_pairs": 0, "x_positions": len(x_positions), "x_matrix_cells": 0, "x_random_classes": 0,
+            "x_by_import_form": {}, "x_classes_with_helper_below": 0, "x_classes_with_helpers_split": 0, "x_metamorphic_pairs": 0, "x_metamorphic_by_law": {}}
+    meta_x = 0
     nontrivial, diffs = set(), 0
     meta_src, meta_info = [], []
     for ci, ((tag, s, src, exp), g) in enumerate(zip(cases, go)):
@@ -319,6 +386,20 @@ def run(tier, seed, replay=None):
         hist["classes"] += 1
         if tag[0] in ("matrix", "form", "name", "nest", "selfref"):
             hist["matrix_cells"] += 1
+        if tag[0] in ("matrixx", "split", "formx", "nestx"):
+            hist["matrix_cells"] += 1
+            hist["x_matrix_cells"] += 1
+        if tag[0] in ("matrixx", "split", "formx", "nestx", "randomx"):
+            used = set(s.others[cid][0] for cid, _, _ in s.mentions) | set(s.others[p[2]][0] for _, f, p in s.mentions if f == "instantiate_nested")
+            for f_ in used:
+                if f_ not in ("builtin", "self"):
+                    hist["x_by_import_form"][f_] = hist["x_by_import_form"].get(f_, 0) + 1
+            if "local_below" in used:
+                hist["x_classes_with_helper_below"] += 1
+                if "local" in used:
+                    hist["x_classes_with_helpers_split"] += 1
+            if tag[0] == "randomx":
+                hist["x_random_classes"] += 1
         if c is None:
             res.violation("C13: class %s missing from the CBO result" % s.name, {"source": src})
             continue
@@ -329,20 +410,20 @@ def run(tier, seed, replay=None):
             nontrivial.add(ci)
         want_names = sorted(s.bound(i) for i in exp)
         if c["count"] != want or sorted(c["deps"]) != want_names or c["count"] != len(c["deps"]):
-            if tag[0] == "matrix":
+            if tag[0] in ("matrix", "matrixx", "split"):
                 sig = {"kind": "position", "position": tag[1], "import": tag[2]}
-            elif tag[0] == "form":
+            elif tag[0] in ("form", "formx"):
                 sig = {"kind": "mention-form", "form": tag[1], "import": tag[2]}
             elif tag[0] == "selfref":
                 sig = {"kind": "self-reference", "form": tag[1]}
             elif tag[0] == "name":
                 sig = {"kind": "name-shape", "name": tag[1], "how": tag[2]}
-            elif tag[0] == "nest":
+            elif tag[0] in ("nest", "nestx"):
                 sig = {"kind": "nested-instantiation", "style": tag[1], "where": tag[2]}
             else:
                 missing = [n for n in want_names if n not in c["deps"]]
                 extra = [n for n in c["deps"] if n not in want_names]
-                sig = {"kind": "random", "missing": len(missing) > 0, "extra": len(extra) > 0}
+                sig = {"kind": "random" if tag[0] == "random" else "random-forms-layouts", "missing": len(missing) > 0, "extra": len(extra) > 0}
             k = C.classify(PID, sig)
             if tag[0] == "random":
                 # attribute to known matrix cells: every missing class is mentioned ONLY through known-lost (position, import) cells
@@ -378,15 +459,59 @@ def run(tier, seed, replay=None):
                                              ("unrelated-added", render(s, extra_unrelated=2), s.name, 0), ("mention-again", render(again), s.name, 0),
                                              ("one-new", render(plus), s.name, 1)):
                 meta_src.append({"Src": src2})
-                meta_info.append((kind, name2, c["count"] + delta, src, src2))
+                meta_info.append((kind, name2, c["count"] + delta, src, src2, None))
+        if tag[0] == "randomx" and s.mentions and meta_x < (150 if tier == "quick" else 1500):
+            meta_x += 1
+            n = len([m for m in s.mentions if m[1] != "base"])
+            order = list(range(n))
+            xrng.shuffle(order)
+            again = ClassSpec(s.name)
+            again.others = dict(s.others)
+            again.mentions = s.mentions + [xrng.choice(s.mentions)]
+            # one new coupled class that is ONLY instantiated, in any import form / layout (appended below the class, `from . import Fresh`, …)
+            plus = ClassSpec(s.name)
+            plus.others = dict(s.others)
+            pform = xrng.choice(X_RANDOM_FORMS)
+            plus.others[999] = (pform, "Fresh", "Fr" if is_alias_form(pform) else "Fresh")
+            plus.mentions = s.mentions + [(999, "instantiate", xrng.choice(x_positions))]
+            # the same class with its same-file helpers moved to the other side of it (only helpers that are named at call time can move below)
+            call_only = set(s.others)
+            for cid, f, p in s.mentions:
+                if f not in ("instantiate", "instantiate_nested"):
+                    call_only.discard(cid)
+            moved = ClassSpec(s.name)
+            moved.mentions = list(s.mentions)
+            for cid, (f, real, bound) in s.others.items():
+                if f == "local" and cid in call_only:
+                    f = "local_below"
+                elif f == "local_below":
+                    f = "local"
+                moved.others[cid] = (f, real, bound)
+            # the same class with every import written in another form of the same kind (alias stays alias: the listed names do not change)
+            reimp = ClassSpec(s.name)
+            reimp.mentions = list(s.mentions)
+            for cid, (f, real, bound) in s.others.items():
+                if f in IMPORT_TEMPLATES:
+                    f = xrng.choice([g for g in IMPORT_TEMPLATES if is_alias_form(g) == is_alias_form(f) and g != f])
+                reimp.others[cid] = (f, real, bound)
+            same = sorted(c["deps"])
+            for kind, src2, name2, delta, names in (("reorder", render(s, member_order=order), s.name, 0, same), ("rename-self", render(s, self_name="Renamed"), "Renamed", 0, same),
+                                                    ("unrelated-added", render(s, extra_unrelated=2), s.name, 0, same), ("mention-again", render(again), s.name, 0, same),
+                                                    ("one-new-instantiated", render(plus), s.name, 1, sorted(same + [plus.bound(999)])),
+                                                    ("helpers-moved", render(moved), s.name, 0, same), ("import-form-changed", render(reimp), s.name, 0, same)):
+                meta_src.append({"Src": src2})
+                meta_info.append((kind, name2, c["count"] + delta, src, src2, names))
+                hist["x_metamorphic_pairs"] += 1
+                hist["x_metamorphic_by_law"][kind] = hist["x_metamorphic_by_law"].get(kind, 0) + 1
     if meta_src:
         mg = C.harness_batch("cbo", meta_src)
-        for g, (kind, name2, want, src, src2) in zip(mg, meta_info):
+        for g, (kind, name2, want, src, src2, names) in zip(mg, meta_info):
             hist["metamorphic_pairs"] += 1
             c = subject(g, name2) if "classes" in g else None
-            if c is None or c["count"] != want:
-                res.violation("C13 (%s): CBO becomes %s, expected %d" % (kind, None if c is None else c["count"], want), {"signature": {"kind": "metamorphic", "law": kind},
-                                                                                                                          "before": src, "after": src2})
+            if c is None or c["count"] != want or (names is not None and sorted(c["deps"]) != names):
+                res.violation("C13 (%s): CBO becomes %s%s, expected %d%s" % (kind, None if c is None else c["count"], "" if c is None or names is None else " %s" % sorted(c["deps"]),
+                                                                             want, "" if names is None else " %s" % names),
+                              {"signature": {"kind": "metamorphic", "law": kind}, "before": src, "after": src2})
     # ---- hand-written shapes (import forms, annotation shapes, positions outside the statement matrix, built-ins) ----------------------------------------
     shp = C.harness_batch("cbo", [{"Src": shape_source(h, b)} for _, h, b, _, _ in SHAPES])
     hist["shape_cases"] = len(SHAPES)
@@ -483,7 +608,12 @@ def run(tier, seed, replay=None):
                 "(0-9 coupled classes + built-ins, 0-12 mentions in random forms/positions); %d hand-written shapes (import forms incl. aliased+plain, two aliases, module-qualified; "
                 "annotation shapes; positions such as defaults, decorator arguments, targets, class level; all built-in exception classes); a multi-file project through the real "
                 "CLI (each class as when analysed alone; names imported in another file are not imported here); five metamorphic variants per correct random class; risk on thresholds; "
-                "non-trivial = class with expected CBO > 0" % (len(INST_POSITIONS), len(SHAPES)),
+                "further forms/layouts as a separate dimension: %d positions (all that are not lost for every basic form) × %d forms (same-file class defined BELOW its user; "
+                "`from . import X`, `from .. import X`, `from .m import X`, `from ..p.m import X`, each with and without alias) + helpers split above/below/relative-imported at each "
+                "position + annotation/base forms × relative imports + nested instantiations across layouts; random classes drawing from all %d forms with seven metamorphic variants "
+                "(the five above with names compared, one new class that is ONLY instantiated in a random form/layout, same-file helpers moved to the other side of the class, "
+                "every import rewritten in another form); "
+                "non-trivial = class with expected CBO > 0" % (len(INST_POSITIONS), len(SHAPES), len(x_positions), len(X_IMPORT_FORMS), len(X_RANDOM_FORMS)),
         "exhaustive": True,
         "exhaustive_note": "the position/form matrices are run completely on every run",
         "samples": [{"source": cases[0][2], "reported": go[0].get("classes")}],
